@@ -575,19 +575,58 @@ func wireAnte(p *Prog, r *Report, clause string) {
 	r.Check(okSMH, kp("WIRE", "ante#SigVerification-uses-TxConfig.SignModeHandler"), "signatures are verified over the bytes produced by the tx config's own sign-mode handler (not by a substitute/wrapper)", p.Pos(w.AntePos),
 		"NewSigVerificationDecorator(accountKeeper, txConfig.SignModeHandler())", "the sign-mode handler given to the signature verification decorator is not txConfig.SignModeHandler(): the bytes a signature is checked against may differ from the transaction's own sign bytes")
 	r.Floor("ante-decorators", len(w.Ante), 13)
-	// setAnteHandler is called from New; SetAnteHandler receives the chain
+	// On every path through app.New, BaseApp.SetAnteHandler is given the decorator chain — in New itself or in a function New
+	// calls unconditionally; the chain may be built in place or handed back by a constructor function.
 	newFn := p.Func(Rel("app"), "New")
-	set := p.Method(Rel("app"), "App", "setAnteHandler")
 	okCall := false
-	if newFn != nil && set != nil {
-		for _, cs := range callSites(newFn) {
-			if cs.Callee == set && unconditionalOnSuccess(newFn, cs.Instr, NewOrigin(p, newFn)) {
-				okCall = true
+	isChain := func(o *Origin, v ssa.Value) bool {
+		t := o.Of(v)
+		if t.IsCall("sdk/types.ChainAnteDecorators") {
+			return true
+		}
+		if t.Op == "call" {
+			if g := staticCalleeOfTerm(p, t); g != nil && InModule(g) && g.Blocks != nil {
+				go2 := NewOrigin(p, g)
+				all, n := true, 0
+				for _, ret := range returnsOf(g) {
+					n++
+					if len(ret.Results) != 1 || !go2.Of(ret.Results[0]).IsCall("sdk/types.ChainAnteDecorators") {
+						all = false
+					}
+				}
+				return all && n > 0
+			}
+		}
+		return false
+	}
+	if newFn != nil {
+		no := NewOrigin(p, newFn)
+		for _, fn := range p.ModFuncs {
+			if !InPkgs(fn, "app") {
+				continue
+			}
+			fo := NewOrigin(p, fn)
+			for _, cs := range callSites(fn) {
+				if !strings.HasSuffix(cs.Name, "baseapp.BaseApp).SetAnteHandler") || len(cs.Instr.Common().Args) < 2 {
+					continue
+				}
+				if !isChain(fo, cs.Instr.Common().Args[1]) || !unconditionalOnSuccess(fn, cs.Instr, fo) {
+					continue
+				}
+				if fn == newFn {
+					okCall = true
+					continue
+				}
+				for _, c2 := range callSites(newFn) {
+					if c2.Callee != nil && resolveBound(c2.Callee) == fn && unconditionalOnSuccess(newFn, c2.Instr, no) {
+						okCall = true
+					}
+				}
 			}
 		}
 	}
 	r.Check(okCall, kp("WIRE", "app.New→setAnteHandler"), "the ante handler is installed on every path through app.New", "app/app.go",
-		"New calls setAnteHandler unconditionally", "app.New does not (always) call setAnteHandler: transactions would run without signature verification")
+		"SetAnteHandler(ChainAnteDecorators(…)) is executed on every path through New", "app.New does not (always) install the decorator chain with SetAnteHandler: transactions would run without signature verification")
 	// one RegisterMsgServer site per custom module, inside RegisterServices
 	for _, mod := range []string{"x/aol", "x/did", "x/pnft"} {
 		reg := p.Func(Rel(mod+"/types"), "RegisterMsgServer")
